@@ -835,7 +835,7 @@ def run(res, tier):
     res.rule("C02.6 after rebuild() the groups an operator is handed are built like fresh ones (rule C13.3): a group kept from before the rebuild hands the operators the cells / leaves of the old particle positions")
     import c13 as _c13
     _sub = tbf.Result("C13")
-    _c13.run(_sub, "quick")
+    tbf.donor_run(res, _c13, _sub)
     tbf.reexport(res, _sub, ("C13.3",), "C02.6.rebuilt-groups", min_instances=10)
     wroles = wrapper_param_roles(facts, cmap)
     n = 0
